@@ -7,7 +7,7 @@ import re, time
 from .. import core, build
 
 SUB = "expire"
-MODULE = "NngModel.Props.C02Expire"
+MODULE = "NngModel.Props.C02Expire"   # + NngModel.Props.C02Completions
 RULE = ("expire part: n = 1..4 batches of aios (nng_sleep_aio and receives with a timeout on a socket without peers) started back "
         "to back with one or two deadlines on ONE expire thread; every operation must complete exactly once, with result 0 / "
         "NNG_ETIMEDOUT, not before its time and within 3 s of it")
@@ -38,10 +38,45 @@ def judge(args, line):
     return None
 
 
+def complq_part(tier, cov, viol, replay=None):
+    """completion batches (Props/C02Completions.lean): n SUB contexts completed by ONE published message, every
+    callback reaps its own aio (reuses the reap node the batch is threaded through)"""
+    try:
+        exe = build.harness("r_complq", ["r_complq.c"])
+    except build.BuildError as e:
+        viol.append(("complq-build", {"kind": "build", "sub": SUB, "error": str(e), "log": e.log[-3000:]}, True))
+        return
+    cfgs = [replay["complq_args"]] if replay else ([["2", "3"], ["3", "5"], ["16", "4"]] + ([["64", "10"], ["5", "50"]] if tier != "quick" else []))
+    cov["complq"] = []
+    for a in cfgs:
+        r = core.run_stream([exe] + a, "", env=build.env(), timeout=120)
+        line = next((l for l in r.lines if l.startswith("complq ")), None)
+        m = re.match(r"complq n=(\d+) rounds=(\d+) callbacks=(\d+) expected=(\d+) dup=(\d+)$", line or "")
+        why = None
+        if r.rc != 0:
+            why = f"exit code {r.rc}: {r.err[-1200:]}"
+        elif not m:
+            why = f"the probe did not report: {line!r}"
+        elif int(m.group(3)) != int(m.group(4)) or int(m.group(5)):
+            why = (f"{m.group(3)} callbacks for {m.group(4)} completed operations ({m.group(5)} ran twice): a batch of completions was not "
+                   "run to its end although the callbacks only reused their own aio (nng_aio_reap)")
+        cov["complq"].append(" ".join(a) + (" BAD" if why else " ok"))
+        cov["cases"] += 1
+        if why:
+            cov["bad"] += 1
+            viol.append((f"complq-{len(viol)}", {"kind": "completion batch (REAL): " + why, "sub": SUB, "complq_args": a, "probe_output": line,
+                                                 "how": "harness/r_complq.c <contexts> <rounds>"}, False))
+
+
 def run_part(tier, seed, st, replay=None, batch=100):
     t0 = time.time()
     cov = {"cases": 0, "aios": 0, "bad": 0, "max_late_ms": 0, "configs": []}
     viol = []
+    if replay and "complq_args" in replay:
+        complq_part(tier, cov, viol, replay)
+        return cov, viol
+    if not replay:
+        complq_part(tier, cov, viol)
     try:
         exe = build.harness("r_expire", ["r_expire.c"])
     except build.BuildError as e:
